@@ -136,6 +136,9 @@ def main(tier, seed, prop=PROP):
         for pre, suf in TEMPLATES:
             npos.append(pre + x + suf)
     jobs.append((w_list63, (exe, sorted(set(npos)), opts, "notable-code-points", True, True)))
+    wb = LG.width_boundary_strings(tier, utf8=True)
+    for i in range(0, len(wb), 30):
+        jobs.append((w_list63, (exe, wb[i:i + 30], opts, "width-boundaries", False, False)))
     four = four_byte_cover()
     pos = []
     for x in four:
